@@ -48,7 +48,7 @@ func init() {
 		MinNontrivial:  map[string]int{"quick": 500000, "thorough": 5000000},
 		RequiredObs: []string{
 			"judged:NewDense", "judged:NewSparse", "judged:PruferDecode", "judged:MulticodeDecode", "judged:Graph6Decode", "judged:Sparse6Decode",
-			"judged:ComplementDense|dense", "judged:Complement|dense", "judged:Complement|sparse", "judged:LineGraphDense|dense", "judged:InducedSubgraph|dense", "judged:InducedSubgraph|sparse",
+			"judged:ComplementDense|dense", "judged:ComplementDense(Complement view)|dense", "judged:ComplementDense(Complement view)|sparse", "judged:Complement|dense", "judged:Complement|sparse", "judged:LineGraphDense|dense", "judged:InducedSubgraph|dense", "judged:InducedSubgraph|sparse",
 			"judged:SplitEdge|dense", "judged:SplitEdge|sparse", "judged:Contract|dense", "judged:Contract|sparse", "judged:RandomGraph", "judged:RandomTree",
 			"probe:NewDense caller slice modified afterwards", "probe:NewSparse caller slices modified afterwards",
 			"probe:Complement view re-read after the graph changed", "probe:InducedSubgraph view re-read after the graph changed",
@@ -1010,6 +1010,34 @@ func (r *runner) transforms(g *rg.G, id, repr string, rnd *engine.Rng, o pipeOpt
 			j := (i + 1 + rnd.Intn(n-1)) % n
 			if r.toggle(caseKey, edit, m, i, j) {
 				r.check("ComplementDense|"+repr, caseKey, "", "after-source-changed:", detail, h, want)
+			}
+		}
+	}
+	// ComplementDense of a Complement VIEW over an editable graph: the double complement as a value of its own.  It is
+	// the graph again, and it stays that graph when the graph under the view is edited afterwards, and the other way round.
+	if repr == "dense" || repr == "sparse" {
+		caseKey, detail := base("ComplementDense(Complement view)")
+		in, edit := get(detail)
+		var h *graph.DenseGraph
+		if in == nil || edit == nil {
+		} else if pi := c.Call(caseKey, func() { h = graph.ComplementDense(graph.Complement(in)) }); pi != nil {
+			panicked("ComplementDense(Complement view)", detail, pi, "the graph under the view")
+		} else if r.check("ComplementDense(Complement view)|"+repr, caseKey, "", "", detail, h, g) != nil && n >= 2 {
+			m := g.Copy()
+			i := rnd.Intn(n)
+			j := (i + 1 + rnd.Intn(n-1)) % n
+			detail["then_toggled_in_the_graph_under_the_view"] = []int{i, j}
+			if r.toggle(caseKey, edit, m, i, j) && r.check("ComplementDense(Complement view)|"+repr, caseKey, "", "after-source-changed:", detail, h, g) != nil {
+				hm := g.Copy()
+				i2 := rnd.Intn(n)
+				j2 := (i2 + 1 + rnd.Intn(n-1)) % n
+				detail["then_toggled_in_the_result"] = []int{i2, j2}
+				if r.toggle(caseKey+"|result", h, hm, i2, j2) {
+					c.Obs("probe:double complement and its source edited in turn", 1)
+					if r.check("ComplementDense(Complement view)|"+repr, caseKey, "", "result-after-its-own-edit:", detail, h, hm) != nil {
+						r.check("ComplementDense(Complement view)|"+repr, caseKey+"|source", "", "source-after-result-changed:", detail, in, m)
+					}
+				}
 			}
 		}
 	}
